@@ -3,7 +3,11 @@ import DryocVerif.Model.Protected
 open DryocVerif
 namespace Driver.Prot
 
-/-- `prot <bytes|arr> <len> tok…` → (model answer, "n/a") -/
+/-- `prot <bytes|arr> <len> tok…` → (model answer, "n/a").
+Tokens (parsed by `Model.Protected.parseTok`, same spellings as `ops_prot.rs`): `new lock unlock ro rw na clone
+resize:N[:HH] fill:HH drop wprobe:OFF rprobe:OFF gprobe:fore|aft fsl:N fsro:N newlocked genlocked newrolocked
+genrolocked failfrom:K wrap`, and `zeroize` (the real `Zeroize::zeroize`, in every type state), `clonefrom:J`
+(`slots[@i].clone_from(&slots[J])`), `panicdrop`, `stacklock`, `serde:json:N`, `serde:bincode:N`; each `@i`. -/
 def handle (op : String) (args : List String) : Option Ans :=
   match op, args with
   | "prot", kind :: len :: toks => some (Model.Protected.answer kind len toks, "n/a")
